@@ -37,6 +37,8 @@ type Analysis struct {
 	SwapStores          map[ssa.Instruction]bool      // F3b: stores accepted as explicit swaps of the source
 	evals               map[string]*Eval
 	Contexts            int
+	genVarField         string // W2: the template data field holding the variable name
+	genWordsField       string // W2: … and the one holding the words
 }
 
 // GateInfo is the outcome of a gate rule.
